@@ -28,7 +28,7 @@ def discover():
 
 
 def load_known(pid):
-    p = os.path.join(VERIF, "known_findings.json")
+    p = os.environ.get("VERIF_KNOWN") or os.path.join(VERIF, "known_findings.json")
     try:
         data = json.load(open(p))
     except FileNotFoundError:
@@ -159,6 +159,17 @@ def conclude(pid, tier, seed, summaries, known, wall, extra_results=()):
     return code
 
 
+def _shrink(o, limit=160):
+    """long byte/str payloads inside evidence samples are abbreviated"""
+    if isinstance(o, dict):
+        return {k: _shrink(v, limit) for k, v in o.items()}
+    if isinstance(o, (list, tuple)):
+        return [_shrink(v, limit) for v in o[:40]]
+    if isinstance(o, str) and len(o) > limit:
+        return o[:limit] + "...(%d chars)" % len(o)
+    return o
+
+
 def write_evidence(pid, tier, seed, summaries, wall, nviol, errors, inconclusive, known_hit, extra_results=()):
     states = sum(s.paths for _, s in summaries)
     transitions = sum(s.decisions for _, s in summaries)
@@ -169,7 +180,7 @@ def write_evidence(pid, tier, seed, summaries, wall, nviol, errors, inconclusive
     per = []
     for spec, s in summaries:
         for smp in s.samples[:3]:
-            samples.append({"harness": spec.name, **smp})
+            samples.append(_shrink({"harness": spec.name, **smp}))
         encoded.update(s.encoded)
         models.update(s.models)
         assumes.update(s.assumes)
@@ -178,6 +189,7 @@ def write_evidence(pid, tier, seed, summaries, wall, nviol, errors, inconclusive
                     "discharged": s.discharged, "solver_queries": s.queries, "solver_s": round(s.solver_s, 2),
                     "wall_s": round(s.wall_s, 2), "cover_labels_reached": sorted(s.covers),
                     "unwinding_hits": s.unwind_hits, "solver_unknowns": s.unknowns,
+                    "obligations_rechecked_with_cvc5": s.xchecked, "cvc5_agrees": s.xagree, "cvc5_timeout_or_unknown": s.xunknown,
                     "paths_validated_natively": s.validated, "notes": sorted(s.notes)})
     cov = {
         "states": max(states, 0), "transitions": max(transitions, 0),
